@@ -7,7 +7,7 @@ Open Scope Z_scope.
 (* ---- results: Python exceptions are explicit values ---- *)
 Inductive err :=
 | ValueError | AssertionError | IndexError | KeyError | RuntimeError | NotImplementedErr
-| InvalidMutator | InvalidBackgroundVariant | InvalidConfig | InvalidPamVariant | SysExit1 | OtherErr.
+| InvalidMutator | InvalidBackgroundVariant | InvalidConfig | InvalidPamVariant | InvalidTargetonRegion | SysExit1 | OtherErr.
 
 Inductive result (A : Type) := Ok (a : A) | Err (e : err).
 Arguments Ok {A} a.
